@@ -101,7 +101,7 @@ Jobs_C14 ==
 I32Lm == {ZN(-2147483647) -- Z1, ZN(-2147483647), ZN(2147483647), ZN(2147483646), ZN(-360), ZN(360), ZN(361), ZN(-361), ZN(720), ZN(-720), ZN(1000000), ZN(-1000000),
           ZN(-1), ZN(-359), ZN(-2147483520), ZN(2147483520)}
 Jobs_C19 ==
-   <<Sweep("tab_sin", "u16", Z0, ZN(360), 1), Sweep("tab_cos", "u16", Z0, ZN(360), 1), Sweep("tab_tan", "u8", Z0, ZN(255), 1),
+   <<[k |-> "static_init"], Sweep("tab_sin", "u16", Z0, ZN(360), 1), Sweep("tab_cos", "u16", Z0, ZN(360), 1), Sweep("tab_tan", "u8", Z0, ZN(255), 1),
      [Sweep("tab_sqrt", "u8", Z0, ZN(255), 1) EXCEPT !.ot = "u16"],
      Sweep("sin_angle_aprox", "i32", ZN(NR(-1500, -100000)), ZN(NR(1500, 100000)), 1), Sweep("cos_angle_aprox", "i32", ZN(NR(-1500, -100000)), ZN(NR(1500, 100000)), 1),
      Sweep("sin_angle_aprox", "i32", ZN(-2147483647) -- Z1, ZN(2147483647), NR(2147483, 65521)),
@@ -251,7 +251,7 @@ Jobs_C07 ==
    \o S2Q({CallF("fl2f", "f32", B32(sg, E, M), "") : sg \in {0, 1}, E \in 0..255, M \in {Z0, P(23) -- Z1, P(22)}})
    \o S2Q({CallF("fl2f", "f64", B64(sg, E, M), "") : sg \in {0, 1}, E \in E64, M \in {Z0, P(52) -- Z1, P(51)}})
    \o S2Q({CallF(op, "f32", f, "") : op \in {"sin_angle", "cos_angle", "tan_angle"}, f \in F32Vals})
-   \o <<Sweep("tab_sin", "u16", Z0, ZN(360), 1), Sweep("tab_cos", "u16", Z0, ZN(360), 1), Sweep("tab_tan", "u8", Z0, ZN(255), 1),
+   \o <<[k |-> "static_init"], Sweep("tab_sin", "u16", Z0, ZN(360), 1), Sweep("tab_cos", "u16", Z0, ZN(360), 1), Sweep("tab_tan", "u8", Z0, ZN(255), 1),
         [Sweep("tab_sqrt", "u8", Z0, ZN(255), 1) EXCEPT !.ot = "u16"],
         Sweep("sin_angle_aprox", "i32", ZN(-800), ZN(800), 1), Sweep("cos_angle_aprox", "i32", ZN(-800), ZN(800), 1),
         Sweep("sin_angle_aprox", "i32", ZN(-2147483647) -- Z1, ZN(2147483647), NR(8388593, 65521)),
